@@ -622,6 +622,14 @@ class C14(Prop):
             out.append(comp("VAR c 0\nREPEAT 20000\n  VAR c c+1\n$STRING c", {}, expect="OK", timeout=180.0, expect_out=["STRING 20000"]))
             out.append(comp("VAR c 0\nWHILE c<20001\n  VAR c c+1\n$STRING c", {}, expect="OK", timeout=180.0, expect_out=["STRING 20001"]))
             out.append(comp("VAR c 0\nWHILE c<20002\n  VAR c c+1\n$STRING c", {}, expect="CE:ExceededLimitError", timeout=180.0))
+        # CONTINUE iterations count towards the limit; a never-false WHILE whose body always continues ends in a compile error
+        out.append(comp("WHILE TRUE\n  CONTINUELOOP", {}, expect="CE:ExceededLimitError", timeout=60.0))
+        out.append(comp("VAR c 0\nWHILE i,i<30000\n  VAR c c+1\n  IF c>5\n    CONTINUE\n  STRING x", {}, expect="CE:ExceededLimitError", timeout=90.0))
+        out.append(comp("VAR c 0\nREPEAT 20000\n  VAR c c+1\n  CONTINUELOOP\n$STRING c", {}, expect="OK", timeout=120.0, expect_out=["STRING 20000"]))
+        # imports that follow one another consume no depth
+        for L in (5, 20):
+            files = {("main.txt",): "\n".join(["START a", "STARTENV b", "STARTCODE a"] * (L // 2 + 2) + ["REPEAT 3", "  START a"]), ("a.txt",): "STRING a", ("b.txt",): "VAR x 1"}
+            out.append(fcase(files, ("main.txt",), {"stack_limit": L}, expect="OK"))
         for d, exp in ((99, "OK"), (100, "OK"), (101, "CE:StackOverflowError")):
             out.append(comp("$STRING " + "(" * d + "1" + ")" * d, {}, expect=exp))
             out.append(comp("$STRING 1+" + "(" * d + "1" + ")" * d + "*2", {}, expect=exp))
@@ -953,6 +961,31 @@ class C17(Prop):
                 elif json.dumps(iso[k], sort_keys=True) != key:
                     viol.append((dict(pool[k], note="history: " + json.dumps([pool[j]["text"] for j in hist])[:1500]), "history_dependence", "the result depends on earlier compilations"))
                     break
+        # a compilation must not change the caller's options object (shared between Compiler instances)
+        import yaml, shutil
+        ds = common.impl()["ds"]
+        root = "/tmp/dsv/c17_%d" % os.getpid()
+        try:
+            for proj_cfg in ({"include_comments": True, "supress_command_not_exist": True, "stack_limit": 4}, {"flipper_commands": False}, {"include_comments": True}):
+                shutil.rmtree(root, ignore_errors=True)
+                os.makedirs(root)
+                open(os.path.join(root, "main.txt"), "w").write("REM c\nSTRING x")
+                yaml.dump(proj_cfg, open(os.path.join(root, "config.yaml"), "w"))
+                opts = ds.CompileOptions()
+                before = opts.to_dict()
+                probe = "REM note\nFOO bar\nALTCHAR 65\nIF TRUE\n  IF TRUE\n    IF TRUE\n      IF TRUE\n        STRING deep"
+                base = common.compiled_rec(ds.Compiler(ds.CompileOptions()).compile(probe))
+                ev += 1
+                try:
+                    ds.Compiler(opts).compile_file(os.path.join(root, "main.txt"))
+                except ds.CompilationError:
+                    pass
+                after = common.compiled_rec(ds.Compiler(opts).compile(probe)) if True else None
+                if opts.to_dict() != before or json.dumps(after, sort_keys=True) != json.dumps(base, sort_keys=True):
+                    viol.append(({"kind": "history", "project_config": proj_cfg, "probe": probe}, "options_object_mutated",
+                                 "compiling a project file changed the caller's CompileOptions object / a later compilation with it"))
+        finally:
+            shutil.rmtree(root, ignore_errors=True)
         return {"violations": viol, "evaluations": ev, "summary": {"histories": nh, "fresh_process_baseline": fresh}}
 
 
